@@ -1,6 +1,7 @@
 """C06 - Salsa20, ChaCha, RC4: specified keystream, length-preserving XOR streams, one continuous RC4 stream."""
 import struct
 from mc.engine import Sub, HSystem, hsub, InternalError
+from mc.checks.firstuse import firstuse_sub
 from mc.common import ramp, expander, single_bits, DATA, xor
 from mc.refs import stream as RS
 
@@ -412,8 +413,27 @@ def selftest():
         raise InternalError('reference self-test failed: %r' % (e,))
 
 
+PROP_ = 'C06'
+
+
+def fu_targets():
+    from crysp.rc4 import RC4
+    M = expander(150, 3)
+    t = {}
+    for c in ('salsa20', 'chacha'):
+        for ks, rounds in ((32, 20), (16, 8), (32, 12)):
+            key, nonce = expander(ks, 5), expander(8, 6)
+            t['%s %d/%d' % (c, 8 * ks, rounds)] = ((lambda c, key, nonce, rounds: lambda: mk(c, key, rounds).enc(nv(nonce), M))(c, key, nonce, rounds),
+                                                  RS.stream(blockf(c), key, nonce, rounds, M))
+    t['rc4 key5'] = (lambda: RC4(bytes.fromhex('0102030405')).enc(M), xor(M, RS.rc4(bytes.fromhex('0102030405'), 150)))
+    t['salsa20 hash'] = (lambda: mk('salsa20', expander(32, 5), 20).hash(expander(64, 7)), RS.salsa_hash(expander(64, 7)) if hasattr(RS, 'salsa_hash') else None)
+    if t['salsa20 hash'][1] is None:
+        del t['salsa20 hash']
+    return t
+
+
 def subchecks():
-    return [
+    return [firstuse_sub(PROP_, fu_targets, every=2),
         Sub('rounds-lengths', pts_rounds, run_rounds, engine='P',
             bound='{Salsa20, ChaCha} x key size {128,256} x rounds {2,4,..,20} x 2 keys x 2 nonces (quick: subset) x |M| in {0,1,63,64,65,127,128,129,191,192,193,319,320,321,577,1088}: enc vs reference, length, dec(enc), prefix property for every ordered pair of lengths'),
         Sub('keys-nonces', pts_keys, run_keys, engine='P', exhaustive=False,
